@@ -146,7 +146,10 @@ pub fn plan_for(property: &str) -> Option<(&'static str, Vec<PlanItem>)> {
         ),
         "C15" => (
             "C15",
-            vec![PlanItem { family: "direct_cubic", run: crate::fam::direct::direct_cubic, quick: 12000, thorough: 60000, determinism_check: false }],
+            vec![
+                PlanItem { family: "direct_cubic", run: crate::fam::direct::direct_cubic, quick: 12000, thorough: 60000, determinism_check: false },
+                PlanItem { family: "recovery_window", run: c15_recovery_window, quick: 6000, thorough: 60000, determinism_check: false },
+            ],
         ),
         _ => return None,
     })
@@ -1278,6 +1281,42 @@ fn c17_hs(ctx: &CaseCtx) -> CaseReport {
     rep
 }
 
+/// C15 on the whole stack: sender scripts with losses answered by duplicate / selective ACKs; what
+/// a fast-recovery episode does to the slow-start threshold (hooked snapshots).
+fn c15_recovery_window(ctx: &CaseCtx) -> CaseReport {
+    let mut rep = CaseReport::new(ctx.family, ctx.index, ctx.case_seed);
+    let mut cfg = crate::fam::txscript::generate(ctx.case_seed, crate::fam::txscript::TxFocus::Retransmit, 300_000);
+    let mut r = crate::prng::Prng::new(ctx.case_seed ^ 0xC15_0EC0);
+    cfg.policy.silence = None;
+    cfg.policy.silence_noise = None;
+    cfg.policy.lose_first = *r.pick(&[0.01, 0.03, 0.08]);
+    cfg.policy.lose_retx = 0.0;
+    cfg.policy.stale_ack = 0.0;
+    cfg.policy.sack_capable = r.chance(0.7);
+    if !cfg.policy.sack_capable {
+        cfg.policy.dup_ack = (1.0, 3);
+    }
+    cfg.writer.total = cfg.writer.total.max(r.usize_range(60_000, 300_000));
+    cfg.writer.pause_prob = 0.0;
+    cfg.writer.chunk = (1, 400_000);
+    cfg.sock.tx_buf_initial = Some(1 << 20);
+    cfg.sock.tx_buf_max = Some(1 << 20);
+    cfg.keep_snapshots = true;
+    rep.desc = cfg.describe();
+    let run = crate::fam::txscript::run_tx(ctx.case_seed, &cfg);
+    if let Some(p) = &run.panicked {
+        rep.inconclusive.push(format!("panic during the run: {p}"));
+    }
+    let view = WireView::build(&run.events);
+    let real_addr = if cfg.ipv6 { crate::sim::v6(crate::fam::txscript::REAL_PORT) } else { crate::sim::v4(crate::fam::txscript::REAL_PORT) };
+    mon::c15w::check_recovery_threshold(&mut rep, &run.events, real_addr);
+    rep.counters.add("datagrams", view.pkts.len() as u64);
+    rep.nontrivial = rep.counters.get("c15_fast_recovery_entries_seen") > 0;
+    let end = run.end_time;
+    finish(&mut rep, ctx, &view, run.events, end);
+    rep
+}
+
 fn c06_tx(ctx: &CaseCtx) -> CaseReport {
     let mut rep = CaseReport::new(ctx.family, ctx.index, ctx.case_seed);
     let (cfg, run) = tx_common_opts(ctx, &mut rep, crate::fam::txscript::TxFocus::Retransmit, if ctx.tier == Tier::Quick { 120_000 } else { 500_000 }, ctx.index % 3 == 0);
@@ -1578,6 +1617,14 @@ fn c02_fairlossy(ctx: &CaseCtx) -> CaseReport {
     g.cfg.deadline = std::time::Duration::from_secs(6 * 3600);
     // a slice of the smaller cases records snapshots: every armed protocol timer must wake the task
     g.cfg.keep_snapshots = ctx.index % 5 == 0 && g.cfg.w[0].total + g.cfg.w[1].total < 120_000;
+    // a seventh of the cases: the transport refuses a datagram now and then (a full UDP send buffer
+    // is no loss: whatever was refused must go out once the transport takes datagrams again)
+    if ctx.index % 7 == 3 {
+        let mut r = crate::prng::Prng::new(ctx.case_seed ^ 0xBACC_9E55);
+        g.plan.pending_prob = *r.pick(&[0.01, 0.05, 0.2]);
+        g.plan.pending_for = (crate::events::MS, *r.pick(&[1u64, 5, 30]) * crate::events::MS);
+        g.plan_desc = g.plan.describe();
+    }
     rep.desc = format!("{} plan[{}]", g.cfg.describe(), g.plan_desc);
     let run = duplex::run_duplex(ctx.case_seed, &g.cfg, g.plan);
     let view = WireView::build(&run.events);
@@ -1788,6 +1835,9 @@ pub fn duplex_causes(case_seed: u64, events: &[crate::events::Event], view: &Wir
     }
     if mon::diag::ended_with_unsent_segment_larger_than_window(events) {
         out.push("unsent-segment-cut-for-a-larger-window".to_string());
+    }
+    if mon::diag::own_zero_window_outlasted_inactivity_limit(events, view) {
+        out.push("own-zero-window-outlasts-inactivity-limit".to_string());
     }
     if std::env::var_os("UVH_DEBUG_CAUSES").is_some() {
         eprintln!("duplex_causes: t_fail={t_fail} causes={out:?}");
